@@ -69,6 +69,8 @@ ENV_REF = "ISODATETIMEREF"
 # ---------------------------------------------------------------------------------------------
 # implementation access
 
+_KEPT = {}
+
 def _data():
     from metomi.isodatetime import data
     return data
@@ -78,8 +80,10 @@ def memoised_functions():
     """Every lru_cache wrapper reachable from the package's modules (by introspection)."""
     import metomi.isodatetime.data as data
     import metomi.isodatetime.dumpers as dumpers
+    import metomi.isodatetime.parsers as parsers
+    import metomi.isodatetime.datetimeoper as datetimeoper
     found = []
-    for mod in (data, dumpers):
+    for mod in (data, dumpers, parsers, datetimeoper):
         for name, obj in sorted(vars(mod).items()):
             if hasattr(obj, "cache_clear") and hasattr(obj, "__wrapped__"):
                 found.append((mod.__name__.split(".")[-1] + "." + name, obj))
@@ -103,6 +107,7 @@ def fresh_state(spelling=None):
     data.Calendar._DEFAULT = None
     data.CALENDAR = data.Calendar.default()
     clear_caches()
+    _KEPT.clear()           # a fresh process has no long-lived parser either
     if spelling is not None:
         data.CALENDAR.set_mode(spelling)
 
@@ -221,6 +226,12 @@ def compute(comp):
     if kind == "parse":
         from metomi.isodatetime import parsers
         return str(parsers.TimePointParser().parse(a[0]))
+    if kind == "parsekept":
+        # one long-lived parser for the whole process (an application keeps its parser across mode switches)
+        from metomi.isodatetime import parsers
+        if "tp" not in _KEPT:
+            _KEPT["tp"] = parsers.TimePointParser(assumed_time_zone=(0, 0))
+        return str(_KEPT["tp"].parse(a[0]))
     if kind == "fmt":
         return data.TIMEPOINT_DUMPER_MAP[0].dump(_tp(a[0]), a[1])
     if kind == "rec":
@@ -480,6 +491,10 @@ def g_comp(rng):
                                     rng.randint(0, 2 * 10 ** 9)]))
     if r < 0.90:
         date = g_date(rng)
+        if rng.random() < 0.5:
+            # dates that exist in some calendars only, spelled the same every time
+            return ("parsekept", rng.choice(["2014-02-30", "2014-02-29", "2016-02-29", "2014-02-30T12Z", "2014-366", "2016-366",
+                                             "2015-W53-1", "2014-361", "2014-12-31", "2014-W52-7", "20140230T00Z", "2014-03-31"]))
         return ("parse", _iso(date) + rng.choice(["T00Z", "T06:30+05:30", "T23:59:59Z"]))
     if r < 0.93:
         return ("fmt", g_tp(rng), rng.choice(DUMP_FORMATS))
